@@ -7,6 +7,7 @@ import (
 	"go/ast"
 	"go/format"
 	"go/parser"
+	"go/scanner"
 	"go/token"
 	"math/rand"
 	"os"
@@ -274,6 +275,34 @@ func checkC12(c *Ctx) {
 		}
 		groups = append(groups, g)
 	}
+	// template fragments with a block comment in every third token gap: comments at every decoration
+	// point the decorator can attach them to, inline (the printer keeps inline block comments in place)
+	if tsrc, err := templateSrc(); err == nil {
+		if ms, err := miniFiles(tsrc); err == nil {
+			for mi, m := range ms {
+				// go/printer itself moves a comment that stands inside an import spec behind the spec
+				if gd, ok := m.Decls[0].(*dst.GenDecl); ok && gd.Tok == token.IMPORT {
+					continue
+				}
+				var buf bytes.Buffer
+				if decorator.Fprint(&buf, m) != nil {
+					continue
+				}
+				for off := 0; off < 3; off++ {
+					src := denseComments(buf.Bytes(), off, 3)
+					// reference pipeline without dst: where go/printer itself moves a comment across a token
+					// (tokens it prints without consulting a position, e.g. the '=' of an alias), the order of a
+					// fresh parse differs from any faithful position assignment; such inputs say nothing about dst
+					if !printerKeepsOrder(src) {
+						c.Add("dense_inputs_where_go_printer_moves_a_comment", 1)
+						continue
+					}
+					files = append(files, srcFile{fmt.Sprintf("template-fragment-%d/dense-%d", mi, off), src})
+					groups = append(groups, group{[]int{len(files) - 1}, "dense"})
+				}
+			}
+		}
+	}
 	recs := make([][]byte, len(groups))
 	keys := make([]string, len(groups))
 	seeds := make([]int64, len(groups))
@@ -486,4 +515,109 @@ func init() {
 		})
 		return out
 	}
+}
+
+// denseComments inserts "/* g */" behind every step-th token of src.
+func denseComments(src []byte, off, step int) []byte {
+	var ends []int
+	fset := token.NewFileSet()
+	file := fset.AddFile("", -1, len(src))
+	var sc scanner.Scanner
+	sc.Init(file, src, nil, scanner.ScanComments)
+	for {
+		pos, tok, lit := sc.Scan()
+		if tok == token.EOF {
+			break
+		}
+		if tok == token.SEMICOLON && lit == "\n" || tok == token.COMMENT {
+			continue
+		}
+		n := len(lit)
+		if n == 0 {
+			n = len(tok.String())
+		}
+		ends = append(ends, file.Offset(pos)+n)
+	}
+	var out []byte
+	last := 0
+	for i, e := range ends {
+		if i%step != off || i == len(ends)-1 {
+			continue
+		}
+		out = append(out, src[last:e]...)
+		out = append(out, " /* g */"...)
+		last = e
+	}
+	return append(out, src[last:]...)
+}
+
+// rankLabels lists the valid position fields and comments of a file as (label, position).
+func rankLabels(f *ast.File) ([]string, []token.Pos) {
+	var ls []string
+	var ps []token.Pos
+	for i, n := range nodesInOrder(f) {
+		pf := posFields(n)
+		var keys []string
+		for k := range pf {
+			keys = append(keys, k)
+		}
+		sort.Strings(keys)
+		for _, k := range keys {
+			if pf[k].IsValid() {
+				ls = append(ls, fmt.Sprintf("%d.%T.%s", i, n, k))
+				ps = append(ps, pf[k])
+			}
+		}
+	}
+	i := 0
+	for _, cg := range f.Comments {
+		for _, cm := range cg.List {
+			ls = append(ls, fmt.Sprintf("c%d", i))
+			ps = append(ps, cm.Slash)
+			i++
+		}
+	}
+	return ls, ps
+}
+
+// printerKeepsOrder: go/parser -> go/format -> go/parser alone keeps the relative order of all token
+// and comment positions of src.
+func printerKeepsOrder(src []byte) bool {
+	fset := token.NewFileSet()
+	f, err := parser.ParseFile(fset, "", src, parser.ParseComments)
+	if err != nil {
+		return false
+	}
+	var buf bytes.Buffer
+	if format.Node(&buf, fset, f) != nil {
+		return false
+	}
+	g, err := parser.ParseFile(token.NewFileSet(), "", buf.Bytes(), parser.ParseComments)
+	if err != nil {
+		return false
+	}
+	la, pa := rankLabels(f)
+	lb, pb := rankLabels(g)
+	if len(la) != len(lb) {
+		return false
+	}
+	order := func(ls []string, ps []token.Pos) []string {
+		idx := make([]int, len(ls))
+		for i := range idx {
+			idx[i] = i
+		}
+		sort.SliceStable(idx, func(i, j int) bool { return ps[idx[i]] < ps[idx[j]] })
+		out := make([]string, len(ls))
+		for i, k := range idx {
+			out[i] = ls[k]
+		}
+		return out
+	}
+	oa, ob := order(la, pa), order(lb, pb)
+	for i := range oa {
+		if oa[i] != ob[i] {
+			return false
+		}
+	}
+	return true
 }
